@@ -544,3 +544,16 @@ func init() {
 	mut("C20", "(benign) StorageProof JSON decoder with explicit tags", false, "",
 		Edit{ty, "\t\tParentID *FileContractID\n\t\tLeaf     *string\n\t\tProof    *[]Hash256\n\t}{&sp.ParentID, &leaf, &sp.Proof})", "\t\tParentID *FileContractID `json:\"parentID\"`\n\t\tLeaf     *string         `json:\"leaf\"`\n\t\tProof    *[]Hash256      `json:\"proof\"`\n\t}{&sp.ParentID, &leaf, &sp.Proof})"})
 }
+
+func init() {
+	// ---- C12 (value-aware stripping) ----
+	mut("C12", "semantic encoding strips the storage-proof history proof from a copy that is not the one encoded", true, "exclusion-set|v2-semantics",
+		Edit{"types/encoding.go", "\t\tswitch res := fcr.Resolution.(type) {\n\t\tcase *V2FileContractRenewal:", "\t\tresolution := fcr.Resolution\n\t\tswitch res := resolution.(type) {\n\t\tcase *V2FileContractRenewal:"},
+		Edit{"types/encoding.go", "\t\t\tfcr.Resolution = &renewal\n", "\t\t\tresolution = &renewal\n"},
+		Edit{"types/encoding.go", "\t\tfcr.Resolution.(EncoderTo).EncodeTo(e)\n", "\t\tresolution.(EncoderTo).EncodeTo(e)\n"})
+	mut("C12", "(benign) semantic encoding normalises into a local that is then encoded", false, "",
+		Edit{"types/encoding.go", "\t\tswitch res := fcr.Resolution.(type) {\n\t\tcase *V2FileContractRenewal:", "\t\tresolution := fcr.Resolution\n\t\tswitch res := resolution.(type) {\n\t\tcase *V2FileContractRenewal:"},
+		Edit{"types/encoding.go", "\t\t\tfcr.Resolution = &renewal\n", "\t\t\tresolution = &renewal\n"},
+		Edit{"types/encoding.go", "\t\t\tfcr.Resolution = &sp\n", "\t\t\tresolution = &sp\n"},
+		Edit{"types/encoding.go", "\t\tfcr.Resolution.(EncoderTo).EncodeTo(e)\n", "\t\tresolution.(EncoderTo).EncodeTo(e)\n"})
+}
